@@ -1,6 +1,7 @@
 import SfVerif.Model.Proto
 import SfVerif.Gen.Structure
 import SfVerif.Lemmas.Intern4
+import SfVerif.Lemmas.Sched
 /-! C13 — each invocation starts from a clean slate. -/
 namespace SfVerif.Props.C13
 open SfVerif SfVerif.Gen
@@ -121,6 +122,18 @@ theorem C13_only_interning_survives (w : Nat) (pre : List Op) (b : Bytes) (ops :
 /-- non-vacuity: what is kept of a mixed history -/
 example : [Op.log 3 1, .intern #[1], .w false (.arr 2), .cached #[2], .root].filter interns = [.intern #[1], .cached #[2]] := by
   rfl
+
+/-- **C13 under every interleaving of any number of threads**: a new invocation on thread `t`
+    after any schedule behaves, in every later answer and in its state, exactly as on a thread
+    that performed only the interning operations of `t`'s own script — nothing any thread read,
+    wrote or logged before, this one or another, can be observed in it -/
+theorem C13_every_schedule (w : Nat) (sched : Sys.Sched) (t : Nat) (b : Bytes) (ops : List Op) :
+    Thread.run w (((Sys.runSched w {} sched).1.get t).step w (.init b)).1 ops =
+      Thread.run w ((Thread.run w {} ((SfVerif.Props.C14.script t sched).filter interns)).1.step w (.init b)).1 ops := by
+  have h := (SfVerif.Props.C14.noninterference_from w t sched {}).2
+  have h0 : ({} : Sys).get t = {} := by simp [Sys.get]
+  rw [h, h0]
+  exact C13_only_interning_survives w _ b ops
 
 /-- regenerated obligation: both (re)initialisers replace the whole context by a freshly
     constructed one; natively exactly the interner is carried over, on Wasm nothing is, and the
